@@ -548,8 +548,12 @@ def param_cases(ctx):
     try:
         for k in range(ctx.n(15, 300)):
             groups = []
-            for gi in range(rng.randint(1, 3)):
+            shared = rng.random() < 0.4          # several groups with one id, told apart by model (and location)
+            shared_loc = rng.choice([None, "L"])
+            for gi in range(rng.randint(2 if shared else 1, 3)):
                 g = {"id": "g%d" % gi, "location": rng.choice([None, "L%d" % gi]), "model": rng.choice([None, "M%d" % gi]), "parameters": []}
+                if shared:
+                    g.update({"id": "shared", "location": shared_loc if rng.random() < 0.7 else "L%d" % gi, "model": "M%d" % gi})
                 for pi_ in range(rng.randint(1, 4)):
                     ty = rng.choice(["bool", "int", "dbl", "dbl", "str"])
                     val = {"bool": rng.random() < 0.5, "int": rng.randint(-50, 50), "dbl": float(Fraction(gen_value(rng))), "str": "text%d" % pi_}[ty]
@@ -580,10 +584,10 @@ def param_cases(ctx):
                         outcome = "ok"
                     except Exception as e:  # noqa: BLE001
                         outcome = "raise:" + str(e)[:60]
-                    expect[(g["id"], p["id"])] = (p, new, newty, outcome, g)
+                    expect[(len(expect), g["id"], p["id"])] = (p, new, newty, outcome, g)
             pc.write(base, "out%d" % k)
             pc2 = pi.ParameterConfig(base, "out%d" % k)
-            for (gid, pid), (p, new, newty, outcome, g) in expect.items():
+            for (_, gid, pid), (p, new, newty, outcome, g) in expect.items():
                 try:
                     got = pc2.get(gid, pid, g["location"], g["model"])
                 except Exception as e:  # noqa: BLE001
@@ -725,7 +729,7 @@ def run(ctx):
                               what="resize(%s, %s): %s impl %s, expected %s" % (tuple(spec["resizes"][i]) + bad[0]))
         elif kind == "resize_reread":
             model = decode_store(v, nv, size, ids)
-            bad = diff_store(res["resized_reread"], model, fields=("times",))
+            bad = diff_store(res["resized_reread"], model, fields=("times", "forecast_index"))
             if bad:
                 ctx.violation("pi/resize-write", {"spec": spec, "xml": pifiles.pi_xml(spec), "resizes": spec["resizes"], "differences": bad[:4]},
                               what="resize + write + read: %s impl %s, expected %s" % bad[0])
